@@ -37,6 +37,11 @@ type FenceSpec struct {
 	Match    string   `json:"match,omitempty"`
 	Where    *Where   `json:"where,omitempty"`
 	Obs      string   `json:"obs"`
+	// LIMIT n / SPARSE n are search modifiers the fence grammar accepts. For a
+	// fence they must not change anything: every notifying write still notifies
+	// (the hook's long-lived scan writer merely counts items against the limit).
+	Limit  int `json:"limit,omitempty"`
+	Sparse int `json:"sparse,omitempty"`
 }
 
 type Field struct {
@@ -62,6 +67,10 @@ type Step struct {
 type Case struct {
 	Fences []FenceSpec `json:"fences"`
 	Steps  []Step      `json:"steps"`
+	// Pipeline > 1: the writes are sent in bursts of that many commands before
+	// their replies are read, so that several writes are pending for a live
+	// fence connection at once.
+	Pipeline int `json:"pipeline,omitempty"`
 }
 
 var allDetects = []string{"inside", "outside", "enter", "exit", "cross"}
@@ -108,6 +117,11 @@ func (f FenceSpec) tokens(key string) []string {
 		} else {
 			t = append(t, "WHERE", w.Field, ff(w.Lo), ff(w.Hi))
 		}
+	}
+	if f.Limit > 0 {
+		t = append(t, "LIMIT", strconv.Itoa(f.Limit))
+	} else if f.Sparse > 0 {
+		t = append(t, "SPARSE", strconv.Itoa(f.Sparse))
 	}
 	t = append(t, "FENCE")
 	if f.Detect != nil {
